@@ -39,14 +39,32 @@ BUDGET_S = {"quick": 55, "thorough": 700}
 WS = [" ", "  ", "\t", "\n", " \t ", "\n  ", "   "]
 
 
+LONG_RUNS = [129, 130, 255, 256, 257, 1000, 4096, 70000]
+
+
 class Variant(Style):
-    def __init__(self, rng, ws=True, case=True):
+    def __init__(self, rng, ws=True, case=True, long_at=None, long_len=0):
         self.rng, self.ws, self.case = rng, ws, case
+        # the long_at-th whitespace position (required or optional) becomes ONE long run
+        self.long_at, self.long_len, self.positions = long_at, long_len, 0
+
+    def _long(self):
+        self.positions += 1
+        if self.long_at is not None and self.positions - 1 == self.long_at:
+            unit = self.rng.choice([" ", "\t", "\n", " \t\n"])
+            return (unit * self.long_len)[: self.long_len]
+        return None
 
     def req(self):
+        run = self._long()
+        if run is not None:
+            return run
         return self.rng.choice(WS) if self.ws else " "
 
     def opt(self, default=""):
+        run = self._long()
+        if run is not None:
+            return run
         if not self.ws:
             return default
         r = self.rng.random()
@@ -179,6 +197,36 @@ def judge_parse(ctx, t, rng, cls):
                  keys=findings.parse_triggers(t, text), cls=cls, sig=["parse", mode, o2[0]])
 
 
+def judge_long_runs(ctx, t, rng, cls):
+    """One whitespace position (required or optional) stretched to a very long run."""
+    base = to_text(t)
+    o = drive.parse_term(base)
+    if o[0] != "ok":
+        return
+    want = norm_term(o[1])
+    probe = Variant(random.Random(0), ws=False, case=False)
+    to_text(t, style=probe)
+    if not probe.positions:
+        return
+    for _ in range(2):
+        at = rng.randrange(probe.positions)
+        n = rng.choice(LONG_RUNS[:-1]) if rng.random() < 0.97 else LONG_RUNS[-1]
+        v = Variant(random.Random(rng.random()), ws=False, case=False, long_at=at, long_len=n)
+        text = to_text(t, style=v)
+        ctx.count("evaluations")
+        ctx.cls("variant:long-run")
+        ctx.cls("long-run:%d" % n)
+        ctx.seen([base, at, n])
+        o2 = drive.parse_term(text)
+        if o2[0] == "ok" and norm_term(o2[1]) == want:
+            continue
+        ctx.fail({"filter": base, "position": at, "run_length": n, "mode": "long-run"},
+                 "a long whitespace run parses differently" if o2[0] == "ok" else
+                 "a long whitespace run is rejected", expected=want,
+                 observed=o2 if o2[0] != "ok" else norm_term(o2[1]),
+                 keys=findings.parse_triggers(t, text), cls=cls, sig=["parse", "long", o2[0]])
+
+
 def judge_backends(ctx, t, rng, rows_loaded, cls):
     base = to_text(t)
     v = Variant(random.Random(rng.random()))
@@ -215,6 +263,8 @@ def run(ctx):
         if T.size(t) > 150:
             continue
         judge_parse(ctx, t, rng, "full-grammar")
+        if i % 3 == 0:
+            judge_long_runs(ctx, t, rng, "full-grammar")
         if i % 400 == 0:
             ctx.sample({"filter": to_text(t)[:120],
                         "variant": to_text(t, style=Variant(random.Random(i)))[:160]})
@@ -247,6 +297,8 @@ def run(ctx):
 def requirements(m):
     out = []
     c = m["counters"]
+    if not m["classes"].get("variant:long-run"):
+        out.append("long whitespace runs never exercised")
     if c.get("backend_pairs_translated", 0) < 300:
         out.append("fewer than 300 translated backend pairs")
     for b in ("sql-standard", "sql-athena", "sql-sqlite", "django", "sqla-orm-select", "sqla-core"):
